@@ -305,6 +305,19 @@ func (a *agg) do(act string) error {
 		}
 		a.n.DS.CrashNow()
 		return a.do("C")
+	case strings.HasPrefix(act, "Y"):
+		// the k-th durable write of an inclusion pass fails and the process survives it; the loop reports the error (the
+		// node would shut down), the node is stopped cleanly and started again
+		k := 1
+		fmt.Sscanf(act[1:], "%d", &k)
+		a.n.DS.FailWriteAt(k)
+		_ = a.l.SignalBarrier("daIncluder", "daIncluder")
+		a.n.DS.FailWriteAt(0)
+		a.o.r.Hit("write-failure-inside-inclusion-pass")
+		a.o.mu.Lock()
+		a.o.finalsAtCrash[len(a.o.finals)] = true // a finalize whose persist step failed is repeated
+		a.o.mu.Unlock()
+		return a.do("R")
 	case act == "R", act == "C":
 		if err := a.l.Stop(); err != nil {
 			return err
@@ -675,6 +688,12 @@ func Run(r *vk.Run) {
 				c.Actions = append(append([]string{}, shape...), "H", "D", fmt.Sprintf("X%d", k), "P", "H", "D", "I", "R", "I")
 				jobs = append(jobs, job{c: c})
 				id++
+				if k >= 1 && k <= 9 {
+					c2 := Case{ID: id, Node: "aggregator", Initial: initial}
+					c2.Actions = append(append([]string{}, shape...), "H", "D", fmt.Sprintf("Y%d", k), "I", "P", "H", "D", "I")
+					jobs = append(jobs, job{c: c2})
+					id++
+				}
 			}
 		}
 	}
